@@ -402,7 +402,15 @@ impl Envelope {
     /// this particular recipient.
     #[cfg(feature = "encrypt")]
     fn first_plaintext_in_sealed_messages(sealed_messages: &[SealedMessage], private_key: &dyn Decrypter) -> Result<Vec<u8>> {
+        let scheme = private_key.encapsulation_private_key().encapsulation_scheme();
         for sealed_message in sealed_messages {
+            // A message sealed under another encapsulation scheme (X25519 vs.
+            // ML-KEM, or another ML-KEM level) cannot be for this key; trying
+            // it anyway panics inside the ML-KEM implementation on a level
+            // mismatch.
+            if sealed_message.encapsulation_scheme() != scheme {
+                continue;
+            }
             let a = sealed_message.decrypt(private_key).ok();
             if let Some(plaintext) = a {
                 return Ok(plaintext);
